@@ -184,7 +184,8 @@ def infer_cli(src, options=None, timeout=10, knowledge=None):
     opts = dict(options or {})
     try:
         with watchdog(timeout):
-            semiring = SemiringLogProbability() if opts.pop("logspace", False) else None
+            # --logspace (the CLI default) / --nologspace select the semiring explicitly
+            semiring = SemiringLogProbability() if opts.pop("logspace", False) else SemiringProbability()
             if opts.pop("propagate_weights", False):
                 opts["propagate_weights"] = semiring or SemiringProbability()
             gopts = {k: opts.pop(k) for k in list(opts) if k in GROUND_ONLY_OPTIONS}
